@@ -51,7 +51,7 @@ fn enc_slots<T: ShortMessage>(slots: &[Option<T>; 4], obs: &mut Vec<i64>) {
     }
 }
 
-fn run_ops(sc: &mut ParameterNumberMessageScanner, ops: &[i64], obs: &mut Vec<i64>) -> bool {
+pub fn run_ops(sc: &mut ParameterNumberMessageScanner, ops: &[i64], obs: &mut Vec<i64>) -> bool {
     for op in ops.chunks(4) {
         if op.len() < 4 {
             break;
